@@ -17,7 +17,7 @@ import (
 // reading). Keyed by function; every range in the function is covered.
 var mapRangeExceptions = map[string]string{
 	"(*store/cachekv.Store).Write":                 "collects dirty keys, sorts them (sort.Strings) and only then writes to the parent",
-	"(*store/cachekv.Store).dirtyItems":            "collects matching items, result is sorted before use by the mem-iterator",
+	"(*store/cachekv.Store).dirtyItems":            "sorted: collects matching items, sorted before they are merged into the sorted list",
 	"(store/cachemulti.Store).Write":               "flushes each distinct substore cache once; substores are independent trees",
 	"(*store/rootmulti.Store).CopyStore":           "copies maps into fresh maps",
 	"store/rootmulti.commitStores":                 "commits each distinct substore once; the app hash is computed from a map keyed by name (sorted in SimpleHashFromMap)",
